@@ -93,11 +93,56 @@ theorem rs_bishop_attacks_eq (sq : Nat) (hsq : sq < 64) (occ : UInt64) :
 #print axioms rs_rook_attacks_eq
 #print axioms rs_bishop_attacks_eq
 
+/-! #### the 64-element arrays: `impl UnsafeMagicsExt for Magics` (`self.get_unchecked(square).get_attacks(occupancy)`) -/
+
+/-- the Rust `MagicConfiguration` value of a dumped configuration -/
+def toRsCfg (c : MagicCfg) : Rs.MagicConfiguration :=
+  { mask := c.mask.toUInt64, magic := c.magic.toUInt64, hash_mask := c.hmask.toUInt64, hash_shift := (c.hshift : Int),
+    attacks := attacksOf c }
+
+/-- `ROOK_MAGICS` / `BISHOP_MAGICS` as the dump describes them -/
+def rookMagics : List Rs.MagicConfiguration := (List.range 64).map fun i => toRsCfg (rookCfg i)
+def bishopMagics : List Rs.MagicConfiguration := (List.range 64).map fun i => toRsCfg (bishopCfg i)
+
+theorem magics_idx (g : Nat → MagicCfg) (sq : Nat) (hsq : sq < 64) :
+    vecIdx ((List.range 64).map fun i => toRsCfg (g i)) (Rs.cast .usize (sq : Int)) = some (toRsCfg (g sq)) := by
+  rw [Rs.cast_usize (by omega) (by omega)]
+  simp only [vecIdx, Int.toNat_natCast, List.getElem?_map, List.getElem?_range hsq, Option.map_some]
+
+/-- `ROOK_MAGICS.get_attacks(sq, occ)`: for every square `< 64` and every occupancy both unchecked accesses are in bounds
+and the result is the model's `rookAttacks` (= the ray attacks, by C04) -/
+theorem rs_rook_magics_eq (sq : Nat) (hsq : sq < 64) (occ : UInt64) :
+    Magics.get_attacks rookMagics (sq : Int) occ = some (Board.rookAttacks sq occ) := by
+  unfold Magics.get_attacks rookMagics
+  simp only [magics_idx rookCfg sq hsq, Option.bind_eq_bind, Option.bind_some]
+  exact rs_rook_attacks_eq sq hsq occ
+
+theorem rs_bishop_magics_eq (sq : Nat) (hsq : sq < 64) (occ : UInt64) :
+    Magics.get_attacks bishopMagics (sq : Int) occ = some (Board.bishopAttacks sq occ) := by
+  unfold Magics.get_attacks bishopMagics
+  simp only [magics_idx bishopCfg sq hsq, Option.bind_eq_bind, Option.bind_some]
+  exact rs_bishop_attacks_eq sq hsq occ
+
+/-- a square `≥ 64` indexes past the 64-element array: undefined behaviour (`none`) -/
+theorem rs_rook_magics_ub (sq : Nat) (hsq : 64 ≤ sq) (hsq' : sq < 4294967296) (occ : UInt64) :
+    Magics.get_attacks rookMagics (sq : Int) occ = none := by
+  unfold Magics.get_attacks rookMagics
+  have : vecIdx ((List.range 64).map fun i => toRsCfg (rookCfg i)) (Rs.cast .usize (sq : Int)) = none := by
+    rw [Rs.cast_usize (by omega) (by omega)]
+    simp only [vecIdx, Int.toNat_natCast]
+    rw [List.getElem?_eq_none_iff]; simp; omega
+  simp only [this, Option.bind_eq_bind, Option.bind_none]
+
+#print axioms rs_rook_magics_eq
+#print axioms rs_bishop_magics_eq
+
 /-! non-vacuity: a concrete configuration and occupancy; a shift amount ≥ 64 is a panic -/
 example : magic_hash 0x7e 52 0xfff 0x80102040008040 0x12 = some 144 := by decide
 example : magic_hash 0x7e 64 0xfff 0x80102040008040 0x12 = none := by decide
 example : CfgOk (rookCfg 35) := rook_cfg_ok 35 (by decide)
 example : MagicConfiguration.get_attacks 1 1 1 0 [5, 7] 1 = some 7 := by decide
 example : MagicConfiguration.get_attacks 1 1 1 0 [5] 1 = none := by decide
+example : Magics.get_attacks [⟨1, 1, 1, 0, [5, 7]⟩, ⟨1, 1, 1, 0, [8, 9]⟩] 1 1 = some 9 := by decide
+example : Magics.get_attacks [⟨1, 1, 1, 0, [5, 7]⟩] 1 1 = none := by decide
 
 end Inkayaku.Translated
